@@ -82,6 +82,17 @@ def step (d : DS) (ws : List String) : DS × String :=
     ({ d with sys := { d.sys with srv := { d.sys.srv with key := r.1 } } },
       (if r.2 then ":1" else ":0") ++ " " ++ keyStr r.1 true)
   | ["get", c] => ev d (.newGet (c.toNat?.getD 0 + 1))
+  | ["get-race", c, v] =>
+    -- the new Get registers and reads; if it read a placeholder the holder's loader finishes right now
+    let s1 := next d.sys (.newGet (c.toNat?.getD 0 + 1))
+    let idx := s1.gs.length - 1
+    let s3 := next (next s1 (.step idx none)) (.step idx none)
+    let isCH := match s3.gs[idx]? with | some g => (match g.pc with | .checkHolder _ => true | _ => false) | none => false
+    let s4 := if isCH then (match firstIdx s3.gs isLoading with
+      | some h => next s3 (.step h (some (valOf (unhx v))))
+      | none => s3) else s3
+    let s := quiesce s4 200
+    ({ d with sys := s, known := s.srv.alive.foldl (fun acc i => if i ∈ acc then acc else i :: acc) d.known }, stateStr s)
   | ["load-ok", v] =>
     match firstIdx d.sys.gs isLoading with
     | some i => ev d (.step i (some (valOf (unhx v))))
